@@ -22,6 +22,10 @@ fn check(id: &str, tier: Tier) -> i32 {
             let n = ctx.runs(200_000, 20_000_000);
             run_check(&props::c13::C13, &ctx, &[("histories", n)], |_, _| Vec::new()).exit
         }
+        "C07" => {
+            let n = ctx.runs(4_000, 250_000);
+            run_check(&props::c07::C07, &ctx, &[("programs", n)], |_, _| Vec::new()).exit
+        }
         "C02" => {
             let n = ctx.runs(3_000, 300_000);
             run_check(&props::c02::C02, &ctx, &[("programs", n)], |_, _| Vec::new()).exit
@@ -52,6 +56,7 @@ fn replay(path: &Path) -> i32 {
     match prop {
         "C13" => replay_main(&props::c13::C13, path),
         "C02" => replay_main(&props::c02::C02, path),
+        "C07" => replay_main(&props::c07::C07, path),
         _ => {
             eprintln!("HARNESS-ERROR: replay file names unknown property {:?}", prop);
             2
@@ -109,6 +114,24 @@ fn main() {
                 e.0 += 1;
             }
             for (k, (c, s)) in tally { println!("{:6} seed={} {}", c, s, k); }
+            0
+        }
+        Some("dumprun") => {
+            // debug: print the scenario of run <idx> of <ID>/<stream> as JSON
+            let id = args.get(2).cloned().unwrap_or_default();
+            let stream = args.get(3).cloned().unwrap_or_default();
+            let idx: u64 = args.get(4).and_then(|s| s.parse().ok()).unwrap_or(0);
+            let ctx = Ctx::from_env(Tier::Quick);
+            let sid = rng::stream_id(&format!("{}/{}", id, stream));
+            let mut r = rng::Rng::new(rng::derive(ctx.seed, sid, idx));
+            use framework::Check;
+            let v = match id.as_str() {
+                "C02" => serde_json::to_value(props::c02::C02.generate(&mut r, idx as usize, Tier::Quick)).ok(),
+                "C07" => serde_json::to_value(props::c07::C07.generate(&mut r, idx as usize, Tier::Quick)).ok(),
+                _ => None,
+            };
+            let rf = framework::ReplayFile { property: id.clone(), clause: "dump".into(), observed: String::new(), seed: ctx.seed, run: idx, scenario: v.unwrap_or_default(), detail: Default::default(), minimised_steps: 0 };
+            println!("{}", serde_json::to_string_pretty(&rf).unwrap_or_default());
             0
         }
         Some("replay") => {
